@@ -182,21 +182,24 @@ Definition rat_is_Z (r : brat) (z : Z) : bool :=
 
 (* ---------------- the proposed repair: integer divmod ---------------- *)
 
+Definition round_core (mode : rmode) (neg : bool) (n d : N) : bool * N :=
+  let k := n / d in
+  let r := n mod d in
+  let up :=
+    match mode with
+    | RFloor => neg && negb (r =? 0)
+    | RCeil => negb neg && negb (r =? 0)
+    | RRound => d <=? 2 * r
+    end in
+  let v := if up then k + 1 else k in
+  (neg && negb (v =? 0), v).
+
 Definition q_round_exact (mode : rmode) (q : brat) : res brat :=
   do s <- simplify q;
   if dval s =? 0 then Err EDivByZero
   else
-    let k := nval s / dval s in
-    let r := nval s mod dval s in
-    let neg := rneg s && negb (nval s =? 0) in
-    let up :=
-      match mode with
-      | RFloor => neg && negb (r =? 0)
-      | RCeil => negb neg && negb (r =? 0)
-      | RRound => dval s <=? 2 * r
-      end in
-    let v := if up then k + 1 else k in
-    Ok (mkrat (neg && negb (v =? 0)) (of_N v) (Small 1)).
+    let '(sg, v) := round_core mode (rneg s && negb (nval s =? 0)) (nval s) (dval s) in
+    Ok (mkrat sg (of_N v) (Small 1)).
 
 (* ---------------- classifier of the known defect ---------------- *)
 
